@@ -8,8 +8,9 @@ CFG = dict(
         "Inst.gen_delete_no_precheck: delete does not start with a separate exists() check",
         "Inst.gen_durable_atomic: put_durable / delete_durable apply inside the WAL guard's scope (log_apply_atomic)",
         "Inst.gen_emb_ops_locked: the embedding-class arms of put/get/delete/exists hold the key's lock stripe",
+        "Inst.gen_cache_get_key_checked: CacheRing::get compares the slot entry's key before returning its value",
     ],
-    crate="nvh_c11",
+    crate="nvh_c11", release=True,
     header=H + "From NV.C11 Require Import Model Run.\nOpen Scope N_scope.",
     kinds={"lin": ("lin_case", "check_lin"), "order": ("order_case", "check_order")},
     known_classes={0: "emb-three-structures", 1: "delete-two-steps"},
